@@ -156,12 +156,12 @@ def scenario(ns, e, rng, chain_len, extra=0):
     mods, frags = [], []
     for i in range(chain_len):
         t = ba.clean(rng, rng.randint(2, 9), e)
-        text = ba.build_module(e, ovs[i], t, ovs[i + 1], rng, backbone=rng.randint(3, 12))
+        text = ba.build_module(e, ovs[i], t, ovs[i + 1], rng, backbone=rng.choice([0, 1, 2] + list(range(3, 13))))     # (0: the structure fills the plasmid)
         if text is None:
             return None
         mods.append(text)
         frags.append(ovs[i] + t)
-    vtext, vfrag = ba.build_vector(e, ovs[chain_len], ovs[0], rng, placeholder=rng.randint(2, 8), backbone=rng.randint(2, 10))
+    vtext, vfrag = ba.build_vector(e, ovs[chain_len], ovs[0], rng, placeholder=rng.choice([0, 1] + list(range(2, 9))), backbone=rng.choice([0, 1] + list(range(2, 11))))
     if vtext is None:
         return None
     return Mod, Vec, vtext, mods, "".join(frags) + vfrag
